@@ -305,6 +305,8 @@ class Loops:
                     cands.append(le(A, c))
                     cands.append(le(A, c + 1))
             cands.append(eq(Lin.atom(("mod", (A - init.l).key(), 4)), 0))
+            # stays at or below the next 32-bit boundary of its initial value
+            cands.append(le(A, init.l + 3 - Lin.atom(("mod", (init.l + 3).key(), 4))))
         for i, (a, ia) in enumerate(int_syms):
             for b, ib in int_syms[:i]:
                 cands.append(eq(Lin.atom(a) - Lin.atom(b), ia.l - ib.l))
@@ -446,7 +448,7 @@ class Loops:
                     if b is None:
                         sx.tiles.pop(seqk, None)
                     elif not pre.colls.get(seqk):
-                        sx.tiles[seqk] = b
+                        sx.tiles[seqk] = b     # (base, first start, end after the last element [the carried variable at exit], exact)
         outs = []
         for s, kind, v in exits:
             if kind == "brk" and v[0] == label:
@@ -497,10 +499,13 @@ class Loops:
                         if solver.entails(sb.pc, f_and(flit(le(sl.end, S + nv.l)), flit(le(sl.start, sl.end)))):
                             base = sl.base
                             break
-                if base is None or out.get(seqk, base) != base:
+                if base is None or (out.get(seqk) is not None and out[seqk][0] != base):
                     out[seqk] = None
                 else:
-                    out[seqk] = base
+                    # exact consecutive tiling: each view is exactly [S + o, S + o')
+                    exact = solver.entails(sb.pc, f_and(flit(eq(sl.start, S + A)), flit(eq(sl.end, S + nv.l))))
+                    prev = out.get(seqk)
+                    out[seqk] = (base, S + init.l, S + A, exact and (prev is None or prev[3]))
         return out
 
     def _var_name(self, body, var):
@@ -1145,8 +1150,10 @@ class Loops:
         # lengths are bounded by the buffer's length
         tile_base = None
         if it.seq[0] == "coll" and isinstance(init, IntV) and init.l.is_const() and init.l.c == 0:
-            tile_base = st.tiles.get(it.seq[1].seq)
+            tile_info = st.tiles.get(it.seq[1].seq)
+            tile_base = tile_info[0] if tile_info else None
         bounded = tile_base is not None
+        exact = bool(bounded and tile_info[3])
         for s1, v in self.elem_of(s, it.seq, it.pos + K, e):
             sl = self._first_slice(v) if bounded else None
             if bounded and sl is None:
@@ -1158,12 +1165,17 @@ class Loops:
                 if bounded and kd == "val":
                     if not (isinstance(r, IntV) and solver.entails(s2.pc, f_and(flit(le(r.l - acc.l, sl.length())), flit(ge(r.l, acc.l))))):
                         bounded = False
+                    if exact and not (isinstance(r, IntV) and solver.entails(s2.pc, flit(eq(r.l - acc.l, sl.length())))):
+                        exact = False
         res = init
         if isinstance(init, IntV):
             res = IntV(Lin.atom(("sym", I.fresh("fold"), init.ty)), init.ty)
             if bounded:
                 out = st.clone()
                 out.pc.append(le(res.l, Lin.atom(("len", tile_base))))
+                if exact:
+                    # every element contributes exactly its own extent and the elements tile [lo, hi): the sum is hi - lo
+                    out.pc.append(eq(res.l, tile_info[2] - tile_info[1]))
                 return [(out, "val", res)]
         return [(st, "val", res)]
 
